@@ -5,6 +5,7 @@ package c19
 
 import (
 	"bytes"
+	"context"
 	"encoding/json"
 	"fmt"
 	"net"
@@ -60,6 +61,18 @@ func Capture(s *olareg.Server, c config.Config) {
 	select {
 	case capCh <- struct{}{}:
 	default:
+	}
+}
+
+// earlySignal: deliver SIGTERM after the signal handler goroutine exists but before Server.Run registers the listener
+var earlySignal bool
+
+// BeforeRun is called by the wrapped s.Run in cmd/olareg.
+func BeforeRun() {
+	if earlySignal {
+		time.Sleep(20 * time.Millisecond) // let the goroutine that calls signal.Notify start
+		_ = syscall.Kill(os.Getpid(), syscall.SIGTERM)
+		time.Sleep(150 * time.Millisecond) // let it run Shutdown, which finds no server yet
 	}
 }
 
@@ -241,6 +254,7 @@ func Main(newCmd func() *cobra.Command) int {
 	flagSpace(newCmd, tier, base, res, add)
 	otherFlags(newCmd, base, res, add)
 	termination(newCmd, base, res, add)
+	earlyTermination(newCmd, base, res, add)
 	b, _ := json.Marshal(res)
 	fmt.Println("C19RESULT " + string(b))
 	return 0
@@ -653,6 +667,55 @@ func termination(newCmd func() *cobra.Command, base string, res *Result, add add
 		_ = os.RemoveAll(dir)
 	}
 	res.Parts["termination_prefixes"] = len(steps) + 1
+}
+
+// earlyTermination: the signal arrives before Server.Run has registered its listener ("a termination signal at any time").
+func earlyTermination(newCmd func() *cobra.Command, base string, res *Result, add adder) {
+	dir := filepath.Join(base, "early")
+	_ = os.MkdirAll(dir, 0o755)
+	args := []string{"--dir", dir}
+	for len(capCh) > 0 {
+		<-capCh
+	}
+	cmd := newCmd()
+	var errBuf bytes.Buffer
+	cmd.SetErr(&errBuf)
+	cmd.SetOut(&errBuf)
+	cmd.SetArgs(append([]string{"serve", "--addr", "127.0.0.1", "--port", fmt.Sprint(freePort()), "-v", "error"}, args...))
+	earlySignal = true
+	errCh := make(chan error, 1)
+	go func() { errCh <- cmd.Execute() }()
+	res.Points++
+	res.Probes++
+	select {
+	case err := <-errCh:
+		earlySignal = false
+		if err != nil {
+			add("SIGTERM before the listener is registered", args, "termination-clean", "early-signal-error", "serve returned %v", err)
+		}
+		capMu.Lock()
+		s := capSrv
+		capMu.Unlock()
+		if s != nil {
+			if g := do(s, "GET", "/v2/", nil); g.status != 500 {
+				add("SIGTERM before the listener is registered", args, "store-closed", "store-not-closed-after-early-signal", "serve returned but the store was not closed (the server still answers %d)", g.status)
+			}
+		}
+	case <-time.After(3 * time.Second):
+		earlySignal = false
+		add("SIGTERM before the listener is registered", args, "termination-clean", "termination-hangs:signal-before-the-listener-is-registered", "SIGTERM delivered after the signal handler was installed but before Server.Run registered the http server: Shutdown reports that the server is not running, and serve never returns (the listener keeps running)")
+		// get rid of the stray server: now that it listens, a second signal finds it... the handler goroutine has already exited, so close it directly
+		capMu.Lock()
+		s := capSrv
+		capMu.Unlock()
+		if s != nil {
+			_ = s.Shutdown(context.Background())
+		}
+		select {
+		case <-errCh:
+		case <-time.After(2 * time.Second):
+		}
+	}
 }
 
 func copyTree(src, dst string) {
